@@ -345,6 +345,16 @@ def _matrices(ctx, case):
                     if not _close(i.to_matrix(), rq.rot(axis, th)):
                         ctx.fail({**case, "n": n}, f"{mod.__name__.split('.')[-1]}.{cname}({n},{d}).to_matrix() is not R_{axis}({n}pi/2^{d})")
                         return
+                    if n % 8 == 5:
+                        # the numerator / denominator are values the host read from an earlier result (ints whose value lives in
+                        # __int__, as the SDK accepts for rot_X(n=outcome, ..)): the published matrix is that of the values
+                        from vf.harness.hostdiff import _HostValue
+                        hv = getattr(mod, cname)(reg=reg, imm0=Immediate(_HostValue(n)), imm1=Immediate(_HostValue(d)))
+                        ctx.count("published_matrices_for_host_value_operands")
+                        if not _close(hv.to_matrix(), rq.rot(axis, th)):
+                            ctx.fail({**case, "n": n}, f"{mod.__name__.split('.')[-1]}.{cname} with numerator {n} and denominator {d} given as host values "
+                                                       f"(it prints as {hv}) publishes a matrix that is not R_{axis}({n}pi/2^{d})")
+                            return
                     if n % 8 == 3:
                         # a consumer of the published matrix: compares it (the package's own up-to-phase comparison) with the same
                         # operator in another global phase, and works in place on what it was handed - the NEXT request for the
